@@ -183,3 +183,11 @@ Proof. vm_compute. reflexivity. Qed.
 Theorem refuted_removenode_fault :
   quiescent_bad W2 [(ORemoveNode "n", Some 3)] [0; 0; 0; 0; 0; 0; 0; 0].
 Proof. vm_compute. repeat split. Qed.
+
+(* a three-operation race found by exploring triples: RemoveNode fetches the node
+   BEFORE taking the pod lock; a second RemoveNode that fetched the old record
+   removes the plugin record a concurrent re-AddNode has just created *)
+Theorem refuted_stale_removenode :
+  quiescent_bad W2 [(OAddNode "n" "p", None); (ORemoveNode "n", None); (ORemoveNode "n", None)]
+                [2; 1; 1; 1; 1; 1; 1; 0; 2; 2; 2; 2; 2; 0; 0].
+Proof. vm_compute. repeat split. Qed.
